@@ -5,6 +5,9 @@ props = [json.loads(l) for l in open('/verif/properties.jsonl')]
 
 # id -> (level text, level note, technique)
 CHECKS = {
+ "C13": ("Random expression trees with random partial assignments; substitution/evaluation compared bit-for-bit (metamorphic), memory-reference listing compared with a model traversal, success/failure of evaluation compared with a model completeness predicate and the value with a reference evaluator.",
+         "Value comparison against the reference evaluator only where the reference is well-conditioned (1e-9); the Ok/Err and bit-identity clauses are exact.",
+         "property-based testing: proptest-generated trees and partial assignments; metamorphic + reference-model oracle"),
  "C03": ("Random expression trees (finite literal zoo, nested prefixes, complex operands, ^ chains) printed with the real serializer, re-parsed with the real parser and compared by value at three assignments; bounded depth, sampled assignments.",
          "Uses the library evaluator on both sides (the inverse is the oracle); the reference evaluator is used only to screen points on branch cuts.",
          "property-based testing: proptest-generated trees, print/parse round-trip oracle, value comparison"),
